@@ -24,18 +24,17 @@ From PV Require Import Num NumR model.Geom proofs.LatticeFacts proofs.SiteFacts 
 Theorem C01_scored_disc_packing_has_no_overlap :
   forall (st : pstateR) (l : list discR), wf_state st -> rigid_inputs st -> p_shape NumR st =
     Mol l -> enclosed (p_radius NumR st) l -> packed_score NumR st <> None -> forall (i j : nat)
-    (n m : Z), i < length (p_syms NumR st) -> j < length (p_syms NumR st) -> ~ (i = j /\ n = 0%Z
-    /\ m = 0%Z) -> forall p : R * R, ~ (in_mol (placed_mol (copy st i) l) p /\ in_mol
-    (placed_mol (image st j n m) l) p).
+    (n m : Z), i < copies st -> j < copies st -> ~ (i = j /\ n = 0%Z /\ m = 0%Z) -> forall p : R
+    * R, ~ (in_mol (placed_mol (copy st i) l) p /\ in_mol (placed_mol (image st j n m) l) p).
 Proof. exact scored_disc_packing_has_no_overlap. Qed.
 Print Assumptions C01_scored_disc_packing_has_no_overlap.
 
 Theorem C01_scored_packing_all_pairs_checked :
   forall st : pstateR, wf_state st -> packed_score NumR st <> None -> forall (i j : nat) (n m :
-    Z), i < length (p_syms NumR st) -> j < length (p_syms NumR st) -> ~ (i = j /\ n = 0%Z /\ m =
-    0%Z) -> (sq NumR (p_radius NumR st * n2)%num < centre_dist2 (copy st i) (image st j n m))%R
-    \/ shape_intersects NumR (shape_transform NumR (copy st i) (p_shape NumR st))
-    (shape_transform NumR (image st j n m) (p_shape NumR st)) = false.
+    Z), i < copies st -> j < copies st -> ~ (i = j /\ n = 0%Z /\ m = 0%Z) -> (sq NumR (p_radius
+    NumR st * n2)%num < centre_dist2 (copy st i) (image st j n m))%R \/ shape_intersects NumR
+    (shape_transform NumR (copy st i) (p_shape NumR st)) (shape_transform NumR (image st j n m)
+    (p_shape NumR st)) = false.
 Proof. exact scored_packing_all_pairs_checked. Qed.
 Print Assumptions C01_scored_packing_all_pairs_checked.
 
@@ -70,27 +69,29 @@ Theorem C01_placement_rigid :
 Proof. exact placement_rigid. Qed.
 Print Assumptions C01_placement_rigid.
 
-(* non-vacuity of the well-formedness premises: the p1 state of a unit disc in a 4 x 4 square cell *)
+(* non-vacuity of the well-formedness premises: the p1 state of unit discs on TWO occupied sites in a 4 x 4 square cell *)
 Example C01_premises_satisfiable :
-  let st := @mkPstate NumR [tf_of_rows NumR (1, 0, 0) (0, 1, 0)]%R (@mkSite NumR 0 0 1 0)%R (@mkCell NumR 4 1 0 1)%R
+  let st := @mkPstate NumR [tf_of_rows NumR (1, 0, 0) (0, 1, 0)]%R
+                      [@mkSite NumR 0 0 1 0; @mkSite NumR (1/4) (-1/4) 0 1]%R (@mkCell NumR 4 1 0 1)%R
                       (Mol [@mkDisc NumR 0 0 1]%R) 1%R PI in
-  wf_state st /\ rigid_inputs st /\ enclosed (p_radius NumR st) [@mkDisc NumR 0 0 1]%R.
+  wf_state st /\ rigid_inputs st /\ enclosed (p_radius NumR st) [@mkDisc NumR 0 0 1]%R /\ copies st = 2%nat.
 Proof.
-  cbv zeta. split; [|split].
+  cbv zeta. split; [|split; [|split]].
   - constructor; cbn; try lra. repeat constructor.
-  - split; cbn; [|lra]. repeat constructor; cbn; lra.
+  - split; cbn; repeat constructor; cbn; lra.
   - constructor; [|constructor]. cbn. split; [lra|]. replace (0 * 0 + 0 * 0)%R with 0%R by ring. rewrite sqrt_0. lra.
+  - reflexivity.
 Qed.
 
 Theorem C01_scored_convex_polygon_packing :
   forall (st : pstateR) (l : list segR), wf_state st -> p_shape NumR st = Poly l -> packed_score
-    NumR st <> None -> forall (i j : nat) (n m : Z), i < length (p_syms NumR st) -> j < length
-    (p_syms NumR st) -> ~ (i = j /\ n = 0%Z /\ m = 0%Z) -> let P := placed_poly (copy st i) l in
-    let Q := placed_poly (image st j n m) l in forall sP sQ : R, convex sP P -> convex sQ Q ->
-    closed P -> closed Q -> forall x : pt, strictly_inside sP P x -> strictly_inside sQ Q x ->
-    (sq NumR (p_radius NumR st * n2)%num < centre_dist2 (copy st i) (image st j n m))%R \/
-    (forall e : segR, In e P -> strictly_inside sQ Q (seg_start e)) \/ (forall f : segR, In f Q
-    -> strictly_inside sP P (seg_start f)).
+    NumR st <> None -> forall (i j : nat) (n m : Z), i < copies st -> j < copies st -> ~ (i = j
+    /\ n = 0%Z /\ m = 0%Z) -> let P := placed_poly (copy st i) l in let Q := placed_poly (image
+    st j n m) l in forall sP sQ : R, convex sP P -> convex sQ Q -> closed P -> closed Q ->
+    forall x : pt, strictly_inside sP P x -> strictly_inside sQ Q x -> (sq NumR (p_radius NumR
+    st * n2)%num < centre_dist2 (copy st i) (image st j n m))%R \/ (forall e : segR, In e P ->
+    strictly_inside sQ Q (seg_start e)) \/ (forall f : segR, In f Q -> strictly_inside sP P
+    (seg_start f)).
 Proof. exact scored_convex_polygon_packing. Qed.
 Print Assumptions C01_scored_convex_polygon_packing.
 
@@ -110,9 +111,9 @@ Theorem C01_scored_disc_packing_computed_radius :
   forall (st : pstateR) (l : list discR) (fmin_ : R), wf_state st -> rigid_inputs st -> p_shape
     NumR st = Mol l -> Forall (fun d : discR => (0 < dr NumR d)%R) l -> p_radius NumR st =
     shape_radius NumR fmin_ (p_shape NumR st) -> packed_score NumR st <> None -> forall (i j :
-    nat) (n m : Z), i < length (p_syms NumR st) -> j < length (p_syms NumR st) -> ~ (i = j /\ n
-    = 0%Z /\ m = 0%Z) -> forall p : R * R, ~ (in_mol (placed_mol (copy st i) l) p /\ in_mol
-    (placed_mol (image st j n m) l) p).
+    nat) (n m : Z), i < copies st -> j < copies st -> ~ (i = j /\ n = 0%Z /\ m = 0%Z) -> forall
+    p : R * R, ~ (in_mol (placed_mol (copy st i) l) p /\ in_mol (placed_mol (image st j n m) l)
+    p).
 Proof. exact scored_disc_packing_has_no_overlap_computed_radius. Qed.
 Print Assumptions C01_scored_disc_packing_computed_radius.
 
@@ -140,12 +141,12 @@ Print Assumptions C01_far_convex_polygons_disjoint.
 Theorem C01_scored_convex_polygon_packing_no_overlap :
   forall (st : pstateR) (l : list segR) (fmin_ : R), wf_state st -> rigid_inputs st -> p_shape
     NumR st = Poly l -> l <> [] -> p_radius NumR st = shape_radius NumR fmin_ (p_shape NumR st)
-    -> packed_score NumR st <> None -> forall (i j : nat) (n m : Z), i < length (p_syms NumR st)
-    -> j < length (p_syms NumR st) -> ~ (i = j /\ n = 0%Z /\ m = 0%Z) -> let P := placed_poly
-    (copy st i) l in let Q := placed_poly (image st j n m) l in forall sP sQ : R, convex sP P ->
-    convex sQ Q -> closed P -> closed Q -> forall x : pt, strictly_inside sP P x ->
-    strictly_inside sQ Q x -> (forall e : segR, In e P -> strictly_inside sQ Q (seg_start e)) \/
-    (forall f : segR, In f Q -> strictly_inside sP P (seg_start f)).
+    -> packed_score NumR st <> None -> forall (i j : nat) (n m : Z), i < copies st -> j < copies
+    st -> ~ (i = j /\ n = 0%Z /\ m = 0%Z) -> let P := placed_poly (copy st i) l in let Q :=
+    placed_poly (image st j n m) l in forall sP sQ : R, convex sP P -> convex sQ Q -> closed P
+    -> closed Q -> forall x : pt, strictly_inside sP P x -> strictly_inside sQ Q x -> (forall e
+    : segR, In e P -> strictly_inside sQ Q (seg_start e)) \/ (forall f : segR, In f Q ->
+    strictly_inside sP P (seg_start f)).
 Proof. exact scored_convex_polygon_packing_no_overlap. Qed.
 Print Assumptions C01_scored_convex_polygon_packing_no_overlap.
 
@@ -153,12 +154,12 @@ Theorem C01_scored_convex_shape_packing_no_overlap :
   forall (st : pstateR) (l : list segR) (fmin_ sigma : R), wf_state st -> rigid_inputs st ->
     p_shape NumR st = Poly l -> l <> [] -> convex sigma l -> closed l -> p_radius NumR st =
     shape_radius NumR fmin_ (p_shape NumR st) -> packed_score NumR st <> None -> forall (i j :
-    nat) (n m : Z), i < length (p_syms NumR st) -> j < length (p_syms NumR st) -> ~ (i = j /\ n
-    = 0%Z /\ m = 0%Z) -> let P := placed_poly (copy st i) l in let Q := placed_poly (image st j
-    n m) l in forall x : pt, strictly_inside (sigma * det2 (copy st i)) P x -> strictly_inside
-    (sigma * det2 (image st j n m)) Q x -> (forall e : segR, In e P -> strictly_inside (sigma *
-    det2 (image st j n m)) Q (seg_start e)) \/ (forall f : segR, In f Q -> strictly_inside
-    (sigma * det2 (copy st i)) P (seg_start f)).
+    nat) (n m : Z), i < copies st -> j < copies st -> ~ (i = j /\ n = 0%Z /\ m = 0%Z) -> let P
+    := placed_poly (copy st i) l in let Q := placed_poly (image st j n m) l in forall x : pt,
+    strictly_inside (sigma * det2 (copy st i)) P x -> strictly_inside (sigma * det2 (image st j
+    n m)) Q x -> (forall e : segR, In e P -> strictly_inside (sigma * det2 (image st j n m)) Q
+    (seg_start e)) \/ (forall f : segR, In f Q -> strictly_inside (sigma * det2 (copy st i)) P
+    (seg_start f)).
 Proof. exact scored_convex_shape_packing_no_overlap. Qed.
 Print Assumptions C01_scored_convex_shape_packing_no_overlap.
 
@@ -182,12 +183,12 @@ Theorem C01_scored_regular_polygon_packing_no_overlap :
   forall (st : pstateR) (n : nat) (fmin_ : R), 3 <= n -> wf_state st -> rigid_inputs st ->
     p_shape NumR st = Poly (polygon NumR PI sin cos n) -> p_radius NumR st = shape_radius NumR
     fmin_ (p_shape NumR st) -> packed_score NumR st <> None -> forall (i j : nat) (a b : Z), i <
-    length (p_syms NumR st) -> j < length (p_syms NumR st) -> ~ (i = j /\ a = 0%Z /\ b = 0%Z) ->
-    let l := polygon NumR PI sin cos n in let P := placed_poly (copy st i) l in let Q :=
-    placed_poly (image st j a b) l in forall x : pt, strictly_inside (-1 * det2 (copy st i)) P x
-    -> strictly_inside (-1 * det2 (image st j a b)) Q x -> (forall e : segR, In e P ->
-    strictly_inside (-1 * det2 (image st j a b)) Q (seg_start e)) \/ (forall f : segR, In f Q ->
-    strictly_inside (-1 * det2 (copy st i)) P (seg_start f)).
+    copies st -> j < copies st -> ~ (i = j /\ a = 0%Z /\ b = 0%Z) -> let l := polygon NumR PI
+    sin cos n in let P := placed_poly (copy st i) l in let Q := placed_poly (image st j a b) l
+    in forall x : pt, strictly_inside (-1 * det2 (copy st i)) P x -> strictly_inside (-1 * det2
+    (image st j a b)) Q x -> (forall e : segR, In e P -> strictly_inside (-1 * det2 (image st j
+    a b)) Q (seg_start e)) \/ (forall f : segR, In f Q -> strictly_inside (-1 * det2 (copy st
+    i)) P (seg_start f)).
 Proof. exact scored_regular_polygon_packing_no_overlap. Qed.
 Print Assumptions C01_scored_regular_polygon_packing_no_overlap.
 
@@ -195,10 +196,9 @@ Theorem C01_scored_regular_polygon_packing_disjoint :
   forall (st : pstateR) (n : nat) (fmin_ : R), 3 <= n -> wf_state st -> rigid_inputs st ->
     p_shape NumR st = Poly (polygon NumR PI sin cos n) -> p_radius NumR st = shape_radius NumR
     fmin_ (p_shape NumR st) -> packed_score NumR st <> None -> forall (i j : nat) (a b : Z), i <
-    length (p_syms NumR st) -> j < length (p_syms NumR st) -> ~ (i = j /\ a = 0%Z /\ b = 0%Z) ->
-    let l := polygon NumR PI sin cos n in forall x : pt, ~ (strictly_inside (-1 * det2 (copy st
-    i)) (placed_poly (copy st i) l) x /\ strictly_inside (-1 * det2 (image st j a b))
-    (placed_poly (image st j a b) l) x).
+    copies st -> j < copies st -> ~ (i = j /\ a = 0%Z /\ b = 0%Z) -> let l := polygon NumR PI
+    sin cos n in forall x : pt, ~ (strictly_inside (-1 * det2 (copy st i)) (placed_poly (copy st
+    i) l) x /\ strictly_inside (-1 * det2 (image st j a b)) (placed_poly (image st j a b) l) x).
 Proof. exact scored_regular_polygon_packing_disjoint. Qed.
 Print Assumptions C01_scored_regular_polygon_packing_disjoint.
 
@@ -217,4 +217,22 @@ Theorem C01_inside_strictly_within_radius :
     * (snd x - snd c) < Rad * Rad)%R.
 Proof. exact inside_strictly_within_radius. Qed.
 Print Assumptions C01_inside_strictly_within_radius.
+
+
+Theorem C01_copies_count :
+  forall st : pstateR, copies st = length (p_sites NumR st) * length (p_syms NumR st).
+Proof. exact copies_count. Qed.
+Print Assumptions C01_copies_count.
+
+Theorem C01_copies_single_site :
+  forall (st : pstateR) (s : siteR), p_sites NumR st = [s] -> copies st = length (p_syms NumR
+    st) /\ relative_positions NumR st = positions NumR (p_syms NumR st) s.
+Proof. exact copies_single_site. Qed.
+Print Assumptions C01_copies_single_site.
+
+Theorem C01_every_copy_is_a_placement :
+  forall (st : pstateR) (p : tfR), In p (relative_positions NumR st) -> exists (sym : tfR) (s :
+    siteR), In sym (p_syms NumR st) /\ In s (p_sites NumR st) /\ p = placement sym s.
+Proof. exact rel_members. Qed.
+Print Assumptions C01_every_copy_is_a_placement.
 
